@@ -1,0 +1,205 @@
+//go:build verif
+
+package main
+
+import (
+	"encoding/json"
+	"fmt"
+
+	"github.com/ludo-technologies/pyscn/internal/analyzer"
+)
+
+// tedTree is the wire format of an ordered labelled tree: {"l": label, "c": [children]}.
+type tedTree struct {
+	L string     `json:"l"`
+	C []*tedTree `json:"c"`
+}
+
+// buildTed builds real *analyzer.TreeNode values with the real constructors.
+// Iterative (explicit stack) so that very deep inputs do not depend on the
+// JSON nesting being processed recursively here.
+func buildTed(t *tedTree, next *int) *analyzer.TreeNode {
+	if t == nil {
+		return nil
+	}
+	type frame struct {
+		src *tedTree
+		dst *analyzer.TreeNode
+	}
+	root := analyzer.NewTreeNode(*next, t.L)
+	*next++
+	stack := []frame{{t, root}}
+	for len(stack) > 0 {
+		f := stack[len(stack)-1]
+		stack = stack[:len(stack)-1]
+		kids := make([]*analyzer.TreeNode, len(f.src.C))
+		for i, c := range f.src.C {
+			if c == nil {
+				continue
+			}
+			kids[i] = analyzer.NewTreeNode(*next, c.L)
+			*next++
+			f.dst.AddChild(kids[i])
+		}
+		for i, c := range f.src.C {
+			if c != nil {
+				stack = append(stack, frame{c, kids[i]})
+			}
+		}
+	}
+	return root
+}
+
+// pathTree / starTree build big regular shapes without huge JSON.
+func shapeTree(kind string, n int, labels []string, next *int) *analyzer.TreeNode {
+	if n <= 0 || len(labels) == 0 {
+		return nil
+	}
+	lab := func(i int) string { return labels[i%len(labels)] }
+	root := analyzer.NewTreeNode(*next, lab(0))
+	*next++
+	cur := root
+	for i := 1; i < n; i++ {
+		nd := analyzer.NewTreeNode(*next, lab(i))
+		*next++
+		switch kind {
+		case "path":
+			cur.AddChild(nd)
+			cur = nd
+		case "star":
+			root.AddChild(nd)
+		case "comb": // spine with one leaf hanging off every spine node
+			if i%2 == 1 {
+				cur.AddChild(nd)
+			} else {
+				p := cur.Parent
+				if p == nil {
+					p = root
+				}
+				p.AddChild(nd)
+				cur = nd
+			}
+		default: // "binary": heap-shaped
+			parent := findByID(root, (i-1)/2)
+			parent.AddChild(nd)
+		}
+	}
+	return root
+}
+
+func findByID(root *analyzer.TreeNode, id int) *analyzer.TreeNode {
+	stack := []*analyzer.TreeNode{root}
+	base := root.ID
+	for len(stack) > 0 {
+		n := stack[len(stack)-1]
+		stack = stack[:len(stack)-1]
+		if n.ID-base == id {
+			return n
+		}
+		stack = append(stack, n.Children...)
+	}
+	return root
+}
+
+func init() {
+	// ted: real APTEDAnalyzer.ComputeDistance / ComputeSimilarity on given trees.
+	register("ted", func(raw json.RawMessage) (interface{}, error) {
+		var req struct {
+			T1    *tedTree `json:"t1"`
+			T2    *tedTree `json:"t2"`
+			Cost  string   `json:"cost"`
+			IgnL  bool     `json:"ignore_literals"`
+			IgnI  bool     `json:"ignore_identifiers"`
+			Lite  bool     `json:"lite"` // fewer repeated computations (big trees)
+			Shape *struct {
+				Kind1, Kind2 string
+				N1, N2       int
+				Labels1      []string
+				Labels2      []string
+			} `json:"shape"`
+		}
+		if err := json.Unmarshal(raw, &req); err != nil {
+			return nil, err
+		}
+		switch req.Cost {
+		case "default", "python", "weighted":
+		default:
+			return nil, fmt.Errorf("unknown cost model %q", req.Cost)
+		}
+		mk := func() (*analyzer.TreeNode, *analyzer.TreeNode) {
+			id := 0
+			if req.Shape != nil {
+				return shapeTree(req.Shape.Kind1, req.Shape.N1, req.Shape.Labels1, &id),
+					shapeTree(req.Shape.Kind2, req.Shape.N2, req.Shape.Labels2, &id)
+			}
+			return buildTed(req.T1, &id), buildTed(req.T2, &id)
+		}
+		a := analyzer.VerifTedAnalyzer(req.Cost, req.IgnL, req.IgnI)
+		t1, t2 := mk()
+		res := map[string]interface{}{}
+		// fresh trees, fresh analyzer: the observation the property is about
+		res["d"] = a.ComputeDistance(t1, t2)
+		res["sim"] = a.ComputeSimilarity(t1, t2)
+		// the same analyzer and the same node objects again, as the clone detector reuses them
+		res["d_ba"] = a.ComputeDistance(t2, t1)
+		res["sim_aa"] = a.ComputeSimilarity(t1, t1)
+		if !req.Lite {
+			res["d_again"] = a.ComputeDistance(t1, t2)
+			res["d_aa"] = a.ComputeDistance(t1, t1)
+			res["d_bb"] = a.ComputeDistance(t2, t2)
+			res["sim_ba"] = a.ComputeSimilarity(t2, t1)
+			res["sim_bb"] = a.ComputeSimilarity(t2, t2)
+			// identical trees that are different objects
+			u1, u2 := mk()
+			res["d_copy_a"] = a.ComputeDistance(t1, u1)
+			res["sim_copy_a"] = a.ComputeSimilarity(t1, u1)
+			res["d_copy_b"] = a.ComputeDistance(u2, t2)
+		}
+		res["del_all_a"] = a.ComputeDistance(t1, nil)
+		res["ins_all_b"] = a.ComputeDistance(nil, t2)
+		res["d_nil_nil"] = a.ComputeDistance(nil, nil)
+		res["sim_nil_nil"] = a.ComputeSimilarity(nil, nil)
+		res["sim_a_nil"] = a.ComputeSimilarity(t1, nil)
+		if t1 != nil {
+			res["size1"] = t1.Size()
+		} else {
+			res["size1"] = 0
+		}
+		if t2 != nil {
+			res["size2"] = t2.Size()
+		} else {
+			res["size2"] = 0
+		}
+		return res, nil
+	})
+
+	// ted_costs: the cost tables of a shipped cost model on a label alphabet.
+	register("ted_costs", func(raw json.RawMessage) (interface{}, error) {
+		var req struct {
+			Labels []string `json:"labels"`
+			Cost   string   `json:"cost"`
+			IgnL   bool     `json:"ignore_literals"`
+			IgnI   bool     `json:"ignore_identifiers"`
+		}
+		if err := json.Unmarshal(raw, &req); err != nil {
+			return nil, err
+		}
+		cm := analyzer.VerifTedCostModel(analyzer.VerifTedAnalyzer(req.Cost, req.IgnL, req.IgnI))
+		nodes := make([]*analyzer.TreeNode, len(req.Labels))
+		for i, l := range req.Labels {
+			nodes[i] = analyzer.NewTreeNode(i, l)
+		}
+		del := make([]float64, len(nodes))
+		ins := make([]float64, len(nodes))
+		ren := make([][]float64, len(nodes))
+		for i, n := range nodes {
+			del[i] = cm.Delete(n)
+			ins[i] = cm.Insert(n)
+			ren[i] = make([]float64, len(nodes))
+			for j, m := range nodes {
+				ren[i][j] = cm.Rename(n, m)
+			}
+		}
+		return map[string]interface{}{"del": del, "ins": ins, "ren": ren}, nil
+	})
+}
